@@ -6,7 +6,7 @@ const fs = require('fs');
 
 const [jobsPath, outPath, preludePath, timeoutArg] = process.argv.slice(2);
 const timeoutMs = timeoutArg ? parseInt(timeoutArg, 10) : 5000;
-const preludeSrc = fs.readFileSync(preludePath, 'utf8');
+const preludeSrc = fs.readFileSync(jobsPath === '--server' ? outPath : preludePath, 'utf8');
 const preludeScript = new vm.Script(preludeSrc, { filename: 'prelude.js' });
 
 function fixSurrogates(s) {
@@ -18,7 +18,10 @@ function runJob(job) {
   const emit = (...args) => {
     if (trace.length < 20000) trace.push(fixSurrogates(args.map((a) => { try { return String(a); } catch (e) { return '<emit-threw>'; } }).join(' ')));
   };
-  const sandbox = { __emit: emit, __gc: () => {} };
+  const sandbox = {};
+  Object.defineProperty(sandbox, '__emit', { value: emit, writable: true, enumerable: false, configurable: true });
+  Object.defineProperty(sandbox, '__gc', { value: () => {}, writable: true, enumerable: false, configurable: true });
+  for (const k of ['__f', '__t', '__a']) Object.defineProperty(sandbox, k, { value: undefined, writable: true, enumerable: false, configurable: true });
   const ctx = vm.createContext(sandbox, { microtaskMode: 'afterEvaluate' });
   if (!job.no_prelude) preludeScript.runInContext(ctx);
   trace.length = 0;
@@ -74,6 +77,26 @@ function runJob(job) {
   return { id: job.id, steps, trace };
 }
 
+if (jobsPath === '--server') {
+  // server mode: one JSON job per stdin line, one JSON result per stdout line
+  let buf = '';
+  const chunk = Buffer.alloc(1 << 16);
+  for (;;) {
+    let nl;
+    while ((nl = buf.indexOf('\n')) < 0) {
+      let n;
+      try { n = fs.readSync(0, chunk, 0, chunk.length, null); } catch (e) { if (e.code === 'EAGAIN') continue; n = 0; }
+      if (n === 0) process.exit(0);
+      buf += chunk.toString('utf8', 0, n);
+    }
+    const line = buf.slice(0, nl);
+    buf = buf.slice(nl + 1);
+    if (!line.trim()) continue;
+    let res;
+    try { res = runJob(JSON.parse(line)); } catch (e) { res = { fatal: 'runner:' + String(e && e.message) }; }
+    fs.writeSync(1, JSON.stringify(res) + '\n');
+  }
+}
 const lines = fs.readFileSync(jobsPath, 'utf8').split('\n');
 const out = fs.openSync(outPath, 'a');
 let index = 0;
